@@ -1157,6 +1157,29 @@ def realclock_engine(pid, spec, tier, seed, workdir, res):
                                           payload=dict(experiment=line.strip(), how='harness/realclock_test.go TestRealClock: GET (stored with a saturating Age), GET allowing any staleness; real clock, memcache; the Age field of the answer from the store must be at least 2^31')))
 
 
+def scenario_engine(pid, spec, tier, seed, workdir, res):
+    """Deterministic scenarios on store states the generated histories do not reach (harness/scenario_test.go)."""
+    known = load_known()
+    out = os.path.join(workdir, 'scenarios')
+    os.makedirs(out, exist_ok=True)
+    rc, log = run_harness('TestScenarios', {}, out, timeout=900)
+    lp = os.path.join(out, 'scenarios.txt')
+    if rc != 0 or not os.path.exists(lp):
+        res['errors'].append('scenario experiments failed to run: ' + log[-800:])
+        return
+    for line in open(lp):
+        if not line.startswith('SCENARIO prop=%s ' % pid):
+            continue
+        res['evaluations'] += 1
+        res['nontrivial'].add(hashlib.sha1(line.encode()).hexdigest())
+        v = line.split()[-1]
+        code = line.split()[2].split('=', 1)[1]
+        res['distribution']['scenario:' + v] = res['distribution'].get('scenario:' + v, 0) + 1
+        if v == 'BAD' and not known_open(pid, code, known):
+            res['violations'].append(dict(kind='monitor', code=code, case='scenario',
+                                          payload=dict(experiment=line.strip(), how='harness/scenario_test.go TestScenarios (VERIF_OUT=<dir> go test -run TestScenarios ./harness): the named scenario, real transport, real backends')))
+
+
 def build_race_harness():
     with Lock('harness-race'):
         out_bin = os.path.join(BUILD, 'harness.race.test')
